@@ -11,6 +11,8 @@ PROP = dict(
         dict(module="MCClientURL", cfg="MCClientURL_mut_noescape.cfg", expect_violation="PathHolds", timeout=300),
         dict(module="MCClientURL", cfg="MCClientURL_mut_seqfixed.cfg", expect_violation="PathHolds", timeout=300),
         dict(module="MCClientURL", cfg="MCClientURL_mut_revprec.cfg", expect_violation="QueryHolds", timeout=300),
+        # a Runtime serves a history of operations: a scheme remembered from the first request must be found
+        dict(module="MCClientURL", cfg="MCClientURL_mut_memoscheme.cfg", expect_violation="SchemeHolds", timeout=300),
     ],
     level_text="ClientURL transcribes the tail of request.buildHTTP (url.Parse, path.Join, ReplaceAll+PathEscape in map order, "
                "reinstateSlash, re-parse by http.NewRequest, static-query merge) and pickScheme over byte strings, next to C10 stated "
@@ -24,8 +26,11 @@ PROP = dict(
     design_ref="DESIGN.md 4.10",
     driver="c10",
     trace=dict(module="TraceClientURL", cfg="TraceClientURL.cfg"),
-    rule="case = one (base path, pattern, value map, static/caller queries, scheme lists, host) built under several SetPathParam orders "
-         "x repetitions; exhaustive part: 6 base spellings x all patterns of <=2 segments over an 8-segment pool (literals needing "
+    rule="case = a history of operations built one after the other on ONE Runtime (base path, host, runtime schemes fixed; per operation: "
+         "pattern, value map, caller query, operation schemes), each built under several SetPathParam orders x repetitions; every request "
+         "of the history is checked on its own. Histories: all sequences of 2-3 operation scheme lists over a 7-list pool x 3 runtime lists; "
+         "template/value/query sequences under every base spelling; every 4th random case continues with 1-4 further random operations. "
+         "Single-operation part: exhaustive part: 6 base spellings x all patterns of <=2 segments over an 8-segment pool (literals needing "
          "escapes, placeholders, mixed segments) x all values of <=1 (thorough <=2) atoms over a 12-byte class alphabet plus "
          "placeholder-like/dot/escape-like specials; all 3-level query fixings of two keys; all scheme lists <=3 over {http,https,ws} "
          "for runtime and operation; seeded part: random templates with up to 5 segments and hostile/arbitrary-byte values. "
